@@ -152,7 +152,7 @@ fn s1_enumeration() -> Vec<S1> {
 			for claim_off in -3i32..=3 {
 				for (ai, a3) in [Arrive::SinglePump, Arrive::Single, Arrive::Burst].into_iter().enumerate() {
 					for (k1, k2) in [(0u8, 0u8), (2, 0), (0, 2), (1, 1)] {
-						let s = (ci + ai + k1 as usize + (rel_off + 3) as usize + (claim_off + 3) as usize) as u8;
+						let s = (ci as i32 + ai as i32 + k1 as i32 + rel_off + 3 + claim_off + 3) as u8;
 						v.push(S1 {
 							env: Env { ctype, styles: vec![s % 11, (s / 2 + 4) % 11, 0], amt_msat: 5_000_777, cltv_delta: MIN_CLTV_EXPIRY_DELTA, fee_base_msat: 1000, fee_ppm: 0 },
 							rel_off,
@@ -793,7 +793,7 @@ fn s4_enumeration() -> Vec<S4> {
 		for (i, dead) in [Dead::Disconnected, Dead::NothingDelivered, Dead::NoAnswer].into_iter().enumerate() {
 			for back in [None, Some(-3i8), Some(-2), Some(-1), Some(0), Some(1), Some(2)] {
 				for (di, (d_commit, d_htlc, cross_burst)) in ENUM_DELAYS.iter().enumerate() {
-					let s = (i * 7 + di * 3 + back.unwrap_or(5) as usize + 3) as u8;
+					let s = (i as i32 * 7 + di as i32 * 3 + back.unwrap_or(5) as i32 + 3) as u8;
 					v.push(S4 { env: fixed_env(ctype, s), fd_extra: (s % 4) as u8, dead, back, delays: Delays { d_commit: *d_commit, d_htlc: *d_htlc, cross_burst: *cross_burst }, pre: [Arrive::Burst, Arrive::Single, Arrive::SinglePump][(s % 3) as usize] });
 				}
 			}
@@ -935,7 +935,7 @@ fn s5_enumeration() -> Vec<S5> {
 		for hold in [Hold::AwaitingRaa, Hold::MonitorUpdate] {
 			for release in [None, Some(-3i8), Some(-2), Some(-1), Some(0), Some(1), Some(2), Some(3)] {
 				for (pi, pre) in [Arrive::Burst, Arrive::Single, Arrive::SinglePump].into_iter().enumerate() {
-					let s = (pi * 3 + release.unwrap_or(4) as usize + 3) as u8;
+					let s = (pi as i32 * 3 + release.unwrap_or(4) as i32 + 3) as u8;
 					v.push(S5 { env: fixed_env(ctype, s), fd_extra: (s % 4) as u8, hold, release, pre });
 				}
 			}
